@@ -387,8 +387,12 @@ def apply_op(impl, m, op, check):
             order = cfg.ident_order() if token is None else [token]
             hits.sort(key=lambda ik: order.index(cfg.shard_of_key(ik[1])))
             cands = [hits[0]]
-            if hits[0] in m.dels and not m.has_pending():
-                pass
+            hit_tok = cfg.shard_of_key(hits[0][1])
+            for o in list(sess.identity_map.values()):
+                st = inspect(o)
+                if isinstance(o, Item) and st.identity == (pk,) and st.identity_token == hit_tok and st.expired and m.has_pending():
+                    m.flush(cfg)  # get() re-validates an expired identity-map resident with a SELECT, which autoflushes
+                    break
         else:
             if m.has_pending():
                 m.flush(cfg)
